@@ -144,5 +144,29 @@ UNITS += [
 """),
 ]
 
+UNITS += [
+    Unit(name="plan_check", file=PR, anchor="fn check(&self) -> RusticResult<()>", within="impl PrunePlan {", ret_name="r",
+         wrap_open="impl VPlan3 {", wrap_close="}",
+         functions=["commands::prune::PrunePlan::check"],
+         rewrites=[
+             Rw("", "verr()", count=None, kind="err", why="RusticError construction dropped"),
+             Rw("for (id, count) in &self.used_ids {", "let ents = self.used_ids.ventries(); for e in it: ents.iter() { let (id, count) = (&e.0, &e.1);", why="map iteration -> entries vector; Verus for-loop syntax"),
+         ],
+         contract="""
+    ensures
+        // prune goes on only if every blob a snapshot uses was found in some index file
+        /*@ok_only_if_every_used_blob_is_indexed*/ r is Ok ==> forall|k: u64| self.used_ids@.dom().contains(k) ==> #[trigger] self.used_ids@[k] != 0,
+        /*@missing_blob_is_an_error*/ r is Err ==> exists|k: u64| self.used_ids@.dom().contains(k) && #[trigger] self.used_ids@[k] == 0,
+""",
+         loops={1: """
+            invariant
+                forall|i: int| 0 <= i < it.index@ ==> (#[trigger] ents@[i]).1 != 0,
+                forall|i: int| 0 <= i < ents@.len() ==> self.used_ids@.dom().contains((#[trigger] ents@[i]).0._opaque) && self.used_ids@[ents@[i].0._opaque] == ents@[i].1,
+                forall|k: u64| self.used_ids@.dom().contains(k) ==> exists|i: int| 0 <= i < ents@.len() && (#[trigger] ents@[i]).0._opaque == k,
+"""},
+         hints=[("loop_start", "1", "            proof { assert(ents@[it.index@] == *e); assert(self.used_ids@.dom().contains(e.0._opaque) && self.used_ids@[e.0._opaque] == e.1); }")],
+         ),
+]
+
 KANI = []
 META = {"not_covered": []}
